@@ -14,6 +14,7 @@ import (
 	gerrors "github.com/acquirecloud/golibs/errors"
 	"github.com/acquirecloud/golibs/files"
 	"github.com/acquirecloud/golibs/zverif/vsched"
+	"github.com/anishathalye/porcupine"
 	"verifh/internal/bfs"
 	"verifh/internal/ev"
 	"verifh/internal/sdrv"
@@ -274,6 +275,29 @@ func reopenCheck(bs int, data []byte, want map[int]bool, count int) string {
 	} else if _, err := b2.ArrangeBlock(); err == nil {
 		return "reopened allocator hands out a block although every block is allocated"
 	}
+	// a third allocator on another copy is drained: it must hand out exactly the free blocks, each once, and then be exhausted
+	cp3 := gbytes.NewInMemBytes(len(data))
+	dst3, _ := cp3.Buffer(0, len(data))
+	copy(dst3, data)
+	if b3, err := gbytes.NewBlocks(bs, cp3, true); err == nil {
+		got := map[int]bool{}
+		for n := 0; n < count-len(want); n++ {
+			i, err := b3.ArrangeBlock()
+			if err != nil {
+				return fmt.Sprintf("reopened allocator is exhausted (%v) after handing out %d of its %d free blocks, Available()=%d", err, n, count-len(want), b3.Available())
+			}
+			if want[i] || got[i] || i < 0 || i >= count {
+				return fmt.Sprintf("reopened allocator hands out %d while draining (allocated before: %v, handed out twice: %v)", i, want[i], got[i])
+			}
+			got[i] = true
+		}
+		if i, err := b3.ArrangeBlock(); err == nil {
+			return fmt.Sprintf("reopened and drained allocator still hands out %d", i)
+		}
+		if b3.Available() != 0 {
+			return fmt.Sprintf("reopened and drained allocator reports Available=%d", b3.Available())
+		}
+	}
 	// probe the allocated set: FreeBlock succeeds exactly on allocated blocks (each probe touches its own bit only)
 	for i := 0; i < count; i++ {
 		err := b2.FreeBlock(i)
@@ -515,9 +539,17 @@ func mmfile() (seqs int, samples []any) {
 // part S: concurrent allocation / free under the controlled scheduler
 
 func concJob(progs []string, segs int, cfg vsched.Config) sdrv.Job {
+	type hop struct {
+		kind      byte // A F
+		idx       int  // A: index handed out (-1: exhausted); F: index freed
+		call, ret int64
+		thread    int
+	}
 	type obsT struct {
 		problem string
 		final   string
+		hist    []hop
+		init    uint32 // bit set = allocated before the threads start
 	}
 	obs := &obsT{}
 	name := fmt.Sprintf("segments=%d threads=%s P=%d", segs, strings.Join(progs, "|"), cfg.P)
@@ -540,7 +572,10 @@ func concJob(progs []string, segs int, cfg vsched.Config) sdrv.Job {
 		owner := map[int]int{} // index -> owner thread (+1); 100 = pre-allocated, not owned by a thread yet
 		for k := range pre {
 			owner[k] = 100
+			obs.init |= 1 << uint(k)
 		}
+		var tick int64
+		now := func() int64 { tick++; return tick }
 		freeing := map[int]int{}
 		inflightAlloc := 0
 		done := make([]bool, len(progs))
@@ -595,12 +630,15 @@ func concJob(progs []string, segs int, cfg vsched.Config) sdrv.Job {
 					switch c {
 					case 'A':
 						inflightAlloc++
+						c0 := now()
 						i, err := b.ArrangeBlock()
 						inflightAlloc--
 						if err != nil {
+							obs.hist = append(obs.hist, hop{'A', -1, c0, now(), t})
 							vsched.Note("t%d arrange -> exhausted", t)
 							continue
 						}
+						obs.hist = append(obs.hist, hop{'A', i, c0, now(), t})
 						vsched.Note("t%d arrange -> %d", t, i)
 						// (a block whose FreeBlock call is still in flight has no owner any more: it may be handed out again)
 						if o, ok := owner[i]; ok && obs.problem == "" {
@@ -632,8 +670,10 @@ func concJob(progs []string, segs int, cfg vsched.Config) sdrv.Job {
 						}
 						delete(owner, i) // ownership ends with the call; the free takes effect somewhere inside it
 						freeing[i]++
+						c0 := now()
 						err := b.FreeBlock(i)
 						freeing[i]--
+						obs.hist = append(obs.hist, hop{'F', i, c0, now(), t})
 						vsched.Note("t%d free %d -> %v", t, i, err)
 						if err != nil && obs.problem == "" {
 							obs.problem = fmt.Sprintf("FreeBlock(%d) of a held block returned %v", i, err)
@@ -667,6 +707,37 @@ func concJob(progs []string, segs int, cfg vsched.Config) sdrv.Job {
 		}
 		if x.Outcome != vsched.Completed {
 			return x.Outcome.String(), &vsched.Violation{Sig: "conc " + x.Outcome.String(), Detail: fmt.Sprintf("threads did not finish: %v", x.Blocked)}
+		}
+		if obs.problem == "" {
+			// the recorded call/return history must be a history of a sequential allocator: ArrangeBlock hands out a block
+			// that is free at its linearisation point and reports exhaustion only if none is, FreeBlock frees an allocated one
+			var pops []porcupine.Operation
+			for k, h := range obs.hist {
+				pops = append(pops, porcupine.Operation{ClientId: h.thread, Input: k, Call: h.call, Output: k, Return: h.ret})
+			}
+			full := uint32(1)<<uint(8*segs) - 1
+			model := porcupine.Model{
+				Init: func() interface{} { return obs.init },
+				Step: func(state, input, output interface{}) (bool, interface{}) {
+					st := state.(uint32)
+					h := obs.hist[input.(int)]
+					switch {
+					case h.kind == 'A' && h.idx < 0:
+						return st == full, st
+					case h.kind == 'A':
+						return st&(1<<uint(h.idx)) == 0, st | 1<<uint(h.idx)
+					default:
+						return st&(1<<uint(h.idx)) != 0, st &^ (1 << uint(h.idx))
+					}
+				},
+			}
+			if !porcupine.CheckOperations(model, pops) {
+				var ls []string
+				for _, h := range obs.hist {
+					ls = append(ls, fmt.Sprintf("t%d %c(%d) [%d,%d]", h.thread, h.kind, h.idx, h.call, h.ret))
+				}
+				return "violation", &vsched.Violation{Sig: "conc not-linearizable", Detail: "no sequential allocator explains the history (A(-1) = exhausted): " + strings.Join(ls, "; ") + "\nnotes: " + strings.Join(x.Notes, " / ")}
+			}
 		}
 		if obs.problem != "" {
 			sig := "conc " + strings.SplitN(obs.problem, ":", 2)[0]
@@ -705,7 +776,7 @@ func main() {
 	fine := vsched.Mask(vsched.KLock, vsched.KAtomic, vsched.KEnv, vsched.KStep)
 	var jobs []sdrv.Job
 	P := 3
-	two := []string{"A", "F", "AA", "AF", "FA", "FF", "AFA"}
+	two := []string{"A", "F", "AA", "AF", "FA", "FF", "AFA", "AAA"}
 	for _, a := range two {
 		for _, b := range two {
 			jobs = append(jobs, concJob([]string{a, b}, 1, vsched.Config{P: P, Preempt: fine, MaxSteps: 4000}))
@@ -723,7 +794,7 @@ func main() {
 			}
 		}
 	}
-	opt.Rule = "E: every block size in [-2, 2*pagesize+1] x buffer sizes {0, 1, segment-1, segment, segment+1, 2 segments, 2 segments+1} x fit flag: accepted iff valid, else ErrInvalid, never a panic, accepted allocators run a fixed script; all index pairs for block sizes 1,2,4 x 1..3 segments: ranges pairwise disjoint and disjoint from headers. Q: BFS over all histories of {ArrangeBlock, FreeBlock(-1..Count), Block(i)} on tiny geometries to a fixpoint of (header bytes, free hint); after every transition the bytes are copied, a second allocator is opened on the copy and probed. M: all short sequences over a real memory-mapped file reopened by path. S: 2-3 threads x 1-3 ops {Arrange, Free} colliding on the last free blocks, every schedule within the preemption bound with points at the mutex, atomics (and statement steps in the thorough tier); crash point (copy + reopen) after every operation of every schedule"
+	opt.Rule = "E: every block size in [-2, 2*pagesize+1] x buffer sizes {0, 1, segment-1, segment, segment+1, 2 segments, 2 segments+1} x fit flag: accepted iff valid, else ErrInvalid, never a panic, accepted allocators run a fixed script; all index pairs for block sizes 1,2,4 x 1..3 segments: ranges pairwise disjoint and disjoint from headers. Q: BFS over all histories of {ArrangeBlock, FreeBlock(-1..Count), Block(i)} on tiny geometries to a fixpoint of (header bytes, free hint); after every transition the bytes are copied, a second allocator is opened on the copy and probed. M: all short sequences over a real memory-mapped file reopened by path. S: 2-3 threads x 1-3 ops {Arrange, Free} colliding on the last two free blocks (incl. allocation beyond exhaustion), the recorded call/return history must be linearizable against a sequential allocator (porcupine), every schedule within the preemption bound with points at the mutex, atomics (and statement steps in the thorough tier); crash point (copy + reopen) after every operation of every schedule"
 	opt.Bounds = map[string]any{"P_two_threads": P, "P_three_threads": 2}
 	sdrv.Main(run, jobs, opt)
 }
